@@ -105,15 +105,45 @@ func (s restStep) eff() (digits, algo int, period, skew uint64) {
 }
 
 func mutate(code string, mut int) string {
+	b := []byte(code)
 	switch mut {
 	case 1:
-		b := []byte(code)
 		b[len(b)-1] = '0' + (b[len(b)-1]-'0'+3)%10
 		return string(b)
 	case 2:
 		return code[:len(code)-1]
 	case 3:
 		return code + "0"
+	case 4: // same length, numerically equal for a lenient number parser: a sign or blank in place of the first digit if it is 0, else of nothing
+		if b[0] == '0' {
+			b[0] = '+'
+			return string(b)
+		}
+		return "+" + code[1:]
+	case 5:
+		if b[0] == '0' {
+			b[0] = ' '
+			return string(b)
+		}
+		return code[:len(code)-1] + " "
+	case 6: // numeric alias: code + 2^32 at the same width when it fits, else the first digit changed
+		var v uint64
+		lim := uint64(1)
+		for _, c := range b {
+			v = v*10 + uint64(c-'0')
+			lim *= 10
+		}
+		if v+1<<32 < lim {
+			return fmt.Sprintf("%0*d", len(b), v+1<<32)
+		}
+		b[0] = '0' + (b[0]-'0'+1)%10
+		return string(b)
+	case 7: // full-width digits
+		var sb strings.Builder
+		for _, c := range b {
+			sb.WriteRune(rune(0xFF10 + int(c-'0')))
+		}
+		return sb.String()
 	}
 	return code
 }
@@ -295,6 +325,13 @@ func runRestStep(sv *restServer, s restStep) (labels []string, nt bool, err erro
 			lib, _ = otp.ValidateTOTP(gen.Spell(s.Key, s.Sp), code, time.Unix(s.TS, 0), par)
 		}
 		got, _ := r.JSON["valid"].(bool)
+		// where the window would reach below step / counter 0 or the period is astronomically large, the independent window
+		// set is not defined (C03 / C04 leave that corner open); the service must still give the LIBRARY's verdict
+		corner := centre < skew || p > 1<<40
+		if corner {
+			labels = append(labels, "corner-library-only")
+			want = lib
+		}
 		if got != want || got != lib {
 			return fail("POST %s %s -> valid=%v; reference window membership is %v, the library called directly says %v (centre %d, distance %d, skew %d, digits %d, hash %d)", path, body, got, want, lib, centre, s.Dist, skew, d, a)
 		}
@@ -624,9 +661,26 @@ func drawRestStep(t *rapid.T) restStep {
 			sk = 10
 		}
 		n := rapid.Uint64Range(sk+3, 1<<28).Draw(t, "step")
-		s.TS = int64(n*p + rapid.Uint64Range(0, p-1).Draw(t, "off"))
+		if rapid.IntRange(0, 5).Draw(t, "cornerQ") == 0 {
+			// the window reaches below step 0, and / or an astronomically long period (window arithmetic in the time domain overflows)
+			n = rapid.Uint64Range(0, sk+2).Draw(t, "stepLow")
+			if rapid.Bool().Draw(t, "hugePeriod") {
+				s.HasPer, s.Per = true, rapid.SampledFrom([]uint64{1 << 62, 4_000_000_000_000_000_000, 1<<63 - 1, 1 << 40, 1 << 50}).Draw(t, "perHuge")
+				p = s.Per
+				if n > (1<<63-1)/p-0 {
+					n = (1<<63 - 1) / p
+				}
+				if n > 0 && n*p > 1<<63-1-p {
+					n--
+				}
+			}
+		}
+		s.TS = int64(n*p + rapid.Uint64Range(0, minU(p-1, 1<<40)).Draw(t, "off"))
+		if s.TS == 0 {
+			s.TS = 1 // timestamp 0 means "absent" to the service (the server's clock decides)
+		}
 		s.Dist = rapid.IntRange(-int(sk)-2, int(sk)+2).Draw(t, "dist")
-		s.Mut = rapid.SampledFrom([]int{0, 0, 0, 1, 2, 3}).Draw(t, "mut")
+		s.Mut = rapid.SampledFrom([]int{0, 0, 0, 0, 1, 2, 3, 4, 5, 6, 7}).Draw(t, "mut")
 	case "hotp-gen", "chain-hotp":
 		s.HasCtr = rapid.IntRange(0, 3).Draw(t, "hasCtr") != 0
 		s.Ctr = gen.Counter().Draw(t, "ctr")
@@ -656,12 +710,23 @@ func drawRestStep(t *rapid.T) restStep {
 		if s.Dist < 0 && c < uint64(-s.Dist) {
 			s.Dist = -s.Dist
 		}
-		s.Mut = rapid.SampledFrom([]int{0, 0, 0, 1, 2, 3}).Draw(t, "mut")
+		s.Mut = rapid.SampledFrom([]int{0, 0, 0, 0, 1, 2, 3, 4, 5, 6, 7}).Draw(t, "mut")
 	case "ocra-gen", "ocra-val", "chain-ocra":
 		if rapid.Bool().Draw(t, "useRaw") {
 			s.RawName = rapid.SampledFrom(registeredNames).Draw(t, "rawName")
 			rd, _ := ref.ReadSuite(s.RawName, true)
 			s.In = drawAdmissible(t, rd.Cfg)
+		} else if rapid.IntRange(0, 3).Draw(t, "twinOfRegistered") == 0 {
+			// a structured suite whose fields equal those of a registered suite, sent WITHOUT a name: its suite string is
+			// empty, so its codes differ from the registered suite's (the name is part of the HMAC message)
+			rd, _ := ref.ReadSuite(rapid.SampledFrom(registeredNames).Draw(t, "twinName"), true)
+			s.Cfg = rd.Cfg
+			if len(rd.TimeSteps) > 0 {
+				s.Cfg.TimeStep = int(otp.SuiteConfigFromRaws(rd.Cfg.Raw).TimeStep) // the step the registry itself uses for the unit-less form
+			}
+			s.Cfg.Raw = ""
+			s.HashStr = []string{"SHA1", "SHA256", "SHA512"}[rd.Cfg.Hash]
+			s.In = drawAdmissible(t, s.Cfg)
 		} else {
 			s.Cfg = drawUsableCfg(t)
 			s.HashStr = rapid.SampledFrom([]string{"SHA1", "SHA256", "SHA512", "SHA1", "SHA256", "SHA512", "sha512", ""}).Draw(t, "hashStr")
@@ -673,7 +738,7 @@ func drawRestStep(t *rapid.T) restStep {
 		if s.Ep != "chain-ocra" && rapid.IntRange(0, 5).Draw(t, "badIn") == 0 {
 			s.In.Q = append(s.In.Q, make([]byte, 129)...) // challenge too long (if selected)
 		}
-		s.Mut = rapid.SampledFrom([]int{0, 0, 1, 2, 3}).Draw(t, "mut")
+		s.Mut = rapid.SampledFrom([]int{0, 0, 0, 1, 2, 3, 4, 5, 6, 7}).Draw(t, "mut")
 	case "chain-ocra-both":
 		// a registered name plus a structured twin (same or different digits/hash); inputs admissible for both
 		s.RawName = rapid.SampledFrom(registeredNames).Draw(t, "rawName")
